@@ -171,6 +171,19 @@ def run(ctx):
         for q, c in mod.classes.items():
             if any(repo.is_subclass(c.name, b) for b in SHARED_BASES):
                 shared.append((mod, q, c))
+    # module-level singletons: a class instantiated in a module body is shared by every parse
+    seen_sh = {c_.name for _m, _q, c_ in shared}
+    for mod in repo.modules.values():
+        if mod.name.endswith('__main__'):
+            continue
+        for st in mod.tree.body:
+            if isinstance(st, ast.Assign) and isinstance(st.value, ast.Call) and isinstance(st.value.func, ast.Name):
+                c_ = repo.find_class(st.value.func.id)
+                if c_ is not None and c_.name not in seen_sh:
+                    cm_ = [m_ for m_ in repo.modules.values() if c_.name in m_.classes and m_.classes[c_.name] is c_]
+                    if cm_:
+                        shared.append((cm_[0], c_.name, c_))
+                        seen_sh.add(c_.name)
     ctx.analysed['shared_classes'] = len(shared)
     if len(shared) < 30:
         raise AnalysisError('only %d classes in the shared families (floor 30)' % len(shared))
@@ -341,6 +354,10 @@ def run(ctx):
     ctx.assume('user-supplied callbacks, custom parsers and custom specs are outside the rule')
     ctx.assume('receiver typing of non-self stores uses the repository\'s parameter-name '
                'convention (table SHARED_NAMES)')
+    # ---- R09f
+    ctx.rule('R09f', 'the default-database getters return a database constructed by the call (no shared instance)', 2)
+    default_db_fresh(ctx, 'R09f', repo)
+
     return 'other', (
         'Effect analysis over every class whose instances outlive a parse (%d classes) and over '
         'module-level containers, default values and database mutator call sites.  Decides the '
@@ -460,6 +477,25 @@ def _module_state(ctx, repo, rule='R09b', modfilter=None):
                     ctx.refuted(rule, mod, n, 'store into module-level %s is not guarded by '
                                                 '`%s not in %s`: an existing entry is replaced' %
                                 (cname, keytxt, cname), construct=cons)
+                    continue
+                # a remembered *mutable container* must not be handed out: every caller gets the same
+                # list/dict and can change what later callers receive
+                vdefs = [n.value]
+                if isinstance(n.value, ast.Name):
+                    vdefs = [s2.value for s2 in iter_own(f) if isinstance(s2, ast.Assign) and any(
+                        isinstance(t, ast.Name) and t.id == n.value.id for t in s2.targets)]
+                mutable = [d_ for d_ in vdefs if isinstance(d_, (ast.List, ast.Dict, ast.Set, ast.ListComp, ast.DictComp,
+                                                                  ast.SetComp)) or (
+                    isinstance(d_, ast.Call) and isinstance(d_.func, ast.Name) and d_.func.id in ('list', 'dict', 'set'))]
+                handed = [r_ for r_ in iter_own(f) if isinstance(r_, ast.Return) and r_.value is not None and (
+                    (isinstance(n.value, ast.Name) and isinstance(r_.value, ast.Name) and r_.value.id == n.value.id) or
+                    (isinstance(r_.value, ast.Subscript) and isinstance(r_.value.value, ast.Name)
+                     and r_.value.value.id == cname))]
+                if mutable and handed:
+                    ctx.refuted(rule, mod, n, '%s remembers a mutable %s in the module-level %s and returns that same '
+                                'object to every caller: a caller that changes the result (inserting a rule into the '
+                                'list, as the documentation suggests) changes what every later caller -- every later '
+                                'encoder -- gets' % (q, type(mutable[0]).__name__.lower(), cname), construct=cons)
                     continue
                 # key completeness: names the value is built from must flow into the key
                 flows = _flows_into(f, key)
@@ -787,4 +823,40 @@ def object_memos(ctx, rule, repo, modfilter):
                                'with the same key is answered with the first one\'s data'
                                % (short(key, 60), lossy[0] if lossy else '', lossy[1] if lossy else ''),
                                construct=cons)
+    return n
+
+
+
+def default_db_fresh(ctx, rule, repo):
+    """the getters of the default databases hand out a database built by that very call: the
+    object is documented as the caller's to extend (add_context_category), so one shared instance
+    would let one caller's additions change every later default conversion / parse"""
+    from .. import symex
+    n = 0
+    for modname in ('pylatexenc.latex2text', 'pylatexenc.latexwalker._get_defaultspecs'):
+        mod = repo.mod(modname)
+        f = mod.functions.get('get_default_latex_context_db')
+        if f is None:
+            raise AnalysisError('anchor vanished: %s.get_default_latex_context_db' % modname)
+        n += 1
+        glob = [g for g in iter_own(f) if isinstance(g, (ast.Global, ast.Nonlocal))]
+        try:
+            rcs = [c for c in symex.Walker(want_returns=True).run(f) if c.kind == 'return']
+        except symex.TooManyPaths:
+            rcs = []
+        stale = None
+        for c in rcs:
+            d = symex.resolve(c.sub, c.env)
+            fresh = isinstance(d, ast.Call) and call_name(d) == 'LatexContextDb'
+            if not fresh and stale is None:
+                stale = c
+        ctx.decide(rule, bool(rcs) and stale is None and not glob, mod, (stale.node if stale else (glob[0] if glob else f)),
+                   '%s.get_default_latex_context_db returns a LatexContextDb() constructed by the call on every path'
+                   % modname,
+                   '%s.get_default_latex_context_db %s: callers are told to extend the returned database, so a '
+                   'remembered instance makes one caller\'s add_context_category() change the rendering / parsing of '
+                   'every later default-constructed object in the process'
+                   % (modname, ('returns %s, which is not a database constructed by this call' % short(stale.sub, 50))
+                      if stale else 'rebinds module state (%s)' % (short(glob[0], 50) if glob else '')),
+                   construct='%s: default database is fresh' % modname)
     return n
